@@ -5,7 +5,8 @@
       filter/subscriber_filters/combinator.rs   And / Or / Not                      f_int, f_hint, f_acc
       filter/subscriber_filters/mod.rs          LevelFilter, Option<F>, Box/Arc, Filtered, add_interest,
                                                 take_interest, the psf downcast marker
-      filter/targets.rs, filter/directive.rs    DirectiveSet::add / max_level, Statics::enabled
+      filter/targets.rs, filter/directive.rs    DirectiveSet::add / max_level, Statics::enabled; Targets built by the API or
+                                                parsed from a string (field-name directives)
       filter/env/mod.rs, env/directive.rs       EnvFilter::{register_callsite, enabled, max_level_hint},
                                                 Dynamics::matcher, SpanMatcher::level (u64 value matchers only)
       filter/filter_fn.rs                       FilterFn / DynFilterFn (closures are Coq functions)
@@ -275,7 +276,7 @@ Definition env_acc (e : envf) (id : N) (m : meta) (cx : ctx) : bool :=
 (** ** Filters *)
 Inductive filt :=
 | FLevel (lf : levelfilter)
-| FTargets (ds : list (option string * levelfilter))
+| FTargets (ds : list (option string * list string * levelfilter))   (* target, field names ([from_str] only), level *)
 | FEnv (id : N) (ds : list ddir)
 | FFn (f : meta -> bool) (h : hint)
 | FDyn (f : meta -> N -> bool) (h : hint) (cs : option (meta -> interest))
@@ -288,8 +289,13 @@ Inductive filt :=
 | FArc (a : filt)
 | FReload (a : filt).    (* reload::Subscriber<F> holding [a] now *)
 
-Definition targets_set (ds : list (option string * levelfilter)) : dset sdir :=
-  ds_of cmp_sdir sd_level (map (fun d => {| sd_target := fst d; sd_fields := []; sd_level := snd d |}) ds).
+(** [Targets]: a [DirectiveSet<StaticDirective>].  The builder API ([with_target], [with_default]) only makes
+    directives without field names; [Targets::from_str] also accepts [target[{field,..}]=level], and
+    [Targets::{enabled, register_callsite, callsite_enabled}] all go through [DirectiveSet::enabled], which honours
+    the field names for events ([cares_about]) *)
+Definition targets_set (ds : list (option string * list string * levelfilter)) : dset sdir :=
+  ds_of cmp_sdir sd_level
+        (map (fun d => {| sd_target := fst (fst d); sd_fields := snd (fst d); sd_level := snd d |}) ds).
 
 Definition below_hint (h : hint) (m : meta) : bool :=
   match h with None => true | Some lf => level_enabled (m_level m) lf end.
